@@ -1536,6 +1536,14 @@ def rule_r23(prog, res):
     res.floor('R23', 'parent registrations in Interface.add_class', n, 1)
 
 
+def rule_r24(prog, res):
+    from . import c06
+    from ..report import Result
+    res.share('R24', 'occurrence bounds are published whenever they differ '
+              'from the XSD defaults: a client built from the WSDL sends what '
+              'the server accepts (C06-R2)', 'C06', c06.rule_r2, prog, Result)
+
+
 def run(prog, res, tier):
     res.run_rule(rule_r1, prog, res, tier)
     res.run_rule(rule_r2, prog, res)
@@ -1560,6 +1568,7 @@ def run(prog, res, tier):
     res.run_rule(rule_r21, prog, res)
     res.run_rule(rule_r22, prog, res)
     res.run_rule(rule_r23, prog, res)
+    res.run_rule(rule_r24, prog, res)
 
 
 _S = 'spyne/interface/xml_schema/_base.py'
